@@ -14,6 +14,7 @@ import (
 	"sort"
 	"strings"
 	"sync"
+	"sync/atomic"
 	"time"
 )
 
@@ -184,6 +185,7 @@ func c10Server(c *caseCtx) {
 	}
 	var gots []got
 	var wg sync.WaitGroup
+	var unanswered int32
 	startGate := make(chan struct{})
 	for cl := 0; cl < cfg.clients; cl++ {
 		wg.Add(1)
@@ -191,7 +193,13 @@ func c10Server(c *caseCtx) {
 			defer wg.Done()
 			<-startGate
 			for i := range ch {
+				if atomic.LoadInt32(&unanswered) != 0 {
+					continue // a request went unanswered: drain the queue, the round is decided below
+				}
 				r := s.post(bodies[i])
+				if r.err != nil {
+					atomic.StoreInt32(&unanswered, 1)
+				}
 				body := string(bytes.TrimSpace(r.body))
 				if r.err == nil && r.status != 200 {
 					body = normaliseError(bytes.TrimSpace(r.body))
@@ -209,6 +217,23 @@ func c10Server(c *caseCtx) {
 	}
 	close(startGate)
 	wg.Wait()
+	if atomic.LoadInt32(&unanswered) != 0 && s.alive() {
+		// alive, but a request of the concurrent phase never got its answer: what is its handler doing?
+		var which M
+		for _, g := range gots {
+			if g.err != "" {
+				which = M{"request": gs[g.idx].M, "error": g.err}
+				break
+			}
+		}
+		if blocked, where := s.handlerBlocked(); blocked {
+			which["goroutine"] = where
+			c.violate("no-answer", "a request sent next to others never got an answer: its handler goroutine is parked and nothing else of the service is running", which)
+		} else {
+			c.inconclusive("a concurrent request got no answer within the client timeout, the service is alive and not parked")
+		}
+		return
+	}
 	// sequential baseline from the same process, one request at a time (the service is deterministic, so taking it
 	// after the concurrent phase is as good as before - and leaves the process cold for the concurrent phase)
 	baseline := make([]base, N)
@@ -340,7 +365,11 @@ func c10InProc(c *caseCtx) {
 		}(seed)
 	}
 	close(gate) // all goroutines start together on registries nobody has used yet in this (fresh) process
-	wg.Wait()
+	doneAll := make(chan struct{})
+	go func() { wg.Wait(); close(doneAll) }()
+	if !awaitBurst(c, doneAll, "inProc") {
+		return
+	}
 	baseline := make([]decision, N)
 	for i := range bodies {
 		baseline[i] = decide(bodies[i], false)
@@ -443,7 +472,11 @@ func c10ColdBurst(c *caseCtx) {
 		}(g)
 	}
 	close(gate)
-	wg.Wait()
+	doneAll := make(chan struct{})
+	go func() { wg.Wait(); close(doneAll) }()
+	if !awaitBurst(c, doneAll, "cold burst of "+method) {
+		return
+	}
 	c.count("evaluations", 2*len(bodies))
 	c.count("cold_burst_decisions", len(bodies))
 	for k := range bodies {
@@ -574,36 +607,7 @@ func c10LargeBurst(c *caseCtx) {
 	}
 	close(gate)
 	go func() { wg.Wait(); close(done) }()
-	select {
-	case <-done:
-	case <-timeAfterMs(150000):
-		// nothing of this size takes minutes: ask the runtime what the deciding goroutines are doing
-		buf := make([]byte, 8<<20)
-		buf = buf[:runtime.Stack(buf, true)]
-		parked, busy := "", false
-		re := regexp.MustCompile(`^goroutine \d+ \[([^\],]+)(?:, (\d+) minutes)?`)
-		for _, b := range strings.Split(string(buf), "\n\n") {
-			m := re.FindStringSubmatch(strings.TrimSpace(b))
-			if m == nil || !strings.Contains(b, "RealDecisionMaker/lib/") {
-				continue
-			}
-			switch m[1] {
-			case "running", "runnable", "syscall":
-				busy = true
-			default:
-				if m[2] != "" && parked == "" {
-					parked = b
-					if len(parked) > 1800 {
-						parked = parked[:1800]
-					}
-				}
-			}
-		}
-		if parked != "" && !busy {
-			c.violate("blocked", "decisions started together never return: their goroutines are parked inside the library and nothing of it is running", M{"kind": kind, "goroutine": parked})
-		} else {
-			c.inconclusive("a large burst did not finish within the watchdog but its goroutines are still running")
-		}
+	if !awaitBurst(c, done, fmt.Sprintf("kind %d", kind)) {
 		return
 	}
 	c.count("evaluations", 2*len(bodies))
@@ -628,6 +632,44 @@ func c10LargeBurst(c *caseCtx) {
 	}
 	c.count("large_bursts", 1)
 	c.distinct(fmt.Sprintf("large|%d", kind))
+}
+
+// awaitBurst waits for a burst of concurrent decisions. Nothing in these workloads takes minutes: when the burst has not
+// finished after 150 s the runtime is asked what the deciding goroutines are doing - parked inside the library for minutes
+// with nothing of the library running is a verdict (they wait for something that never comes), anything else is inconclusive.
+func awaitBurst(c *caseCtx, done <-chan struct{}, what string) bool {
+	select {
+	case <-done:
+		return true
+	case <-timeAfterMs(150000):
+	}
+	buf := make([]byte, 8<<20)
+	buf = buf[:runtime.Stack(buf, true)]
+	parked, busy := "", false
+	re := regexp.MustCompile(`^goroutine \d+ \[([^\],]+)(?:, (\d+) minutes)?`)
+	for _, b := range strings.Split(string(buf), "\n\n") {
+		m := re.FindStringSubmatch(strings.TrimSpace(b))
+		if m == nil || !strings.Contains(b, "RealDecisionMaker/lib/") {
+			continue
+		}
+		switch m[1] {
+		case "running", "runnable", "syscall":
+			busy = true
+		default:
+			if m[2] != "" && parked == "" {
+				parked = b
+				if len(parked) > 1800 {
+					parked = parked[:1800]
+				}
+			}
+		}
+	}
+	if parked != "" && !busy {
+		c.violate("blocked", "decisions started together never return: their goroutines are parked inside the library and nothing of it is running", M{"burst": what, "goroutine": parked})
+	} else {
+		c.inconclusive("a burst (" + what + ") did not finish within the watchdog but its goroutines are still running")
+	}
+	return false
 }
 
 func init() {
